@@ -570,6 +570,7 @@ def block_end_tok(body, k_open):
     depth = 0
     last_end = k_open          # token index of the end of the last complete statement
     last_stmt_start = None
+    has_else = [False]
     stmt_start = _next_sig(body, k_open)
     k = k_open + 1
     while k < k_close:
@@ -580,6 +581,7 @@ def block_end_tok(body, k_open):
                 if t.text == "{":
                     nxt = _next_sig(body, kk)
                     nt = body[nxt]
+                    if nt.kind == "ident" and nt.text == "else": has_else[0] = True
                     cont = (nt.kind == "ident" and nt.text == "else") or (nt.kind == "punct" and nt.text in (".", "?", ";", ",")) \
                         or (nt.kind == "punct" and nt.text in ("==", "!=", "&&", "||", "+", "-", "*", "/", "<", ">", "<=", ">=", "=>", "as"))
                     # a block that is the body of `match x {..}` / `if c {..}` / `loop {..}` ... ends a statement when
@@ -592,16 +594,20 @@ def block_end_tok(body, k_open):
                             # `while`/`for` loops, which have unit type: the end position is after them
                             if first.text in ("while", "for"):
                                 return k_close
+                            if first.text == "if" and not has_else[0]:
+                                return k_close       # `if` without `else` has unit type
                             return stmt_start
                         last_end = kk
                         last_stmt_start = stmt_start
                         stmt_start = nxt
+                        has_else[0] = False
                 k = kk + 1
                 continue
             if t.text == ";":
                 last_end = k
                 last_stmt_start = stmt_start
                 stmt_start = _next_sig(body, k)
+                has_else[0] = False
         k += 1
     first_tail = _next_sig(body, last_end)
     if first_tail < k_close:
@@ -676,7 +682,8 @@ def emit_fn(out, u, fs, rules_used):
     t2 = pub_vis(text1)
     if t2 != text1: rules_used.add("R7")
     text1 = t2
-    for rule, fnr in (("R1", lambda t: rewrite_R1(t, in_table_impl)), ("R3", rewrite_R3), ("R8", rewrite_R8), ("R10", rewrite_R10), ("R14", rewrite_R14), ("R11", rewrite_R11), ("R17", rewrite_R17)):
+    r1 = (lambda t: t) if fs.opts.get("table_is_vec") else (lambda t: rewrite_R1(t, in_table_impl))
+    for rule, fnr in (("R1", r1), ("R3", rewrite_R3), ("R8", rewrite_R8), ("R10", rewrite_R10), ("R14", rewrite_R14), ("R11", rewrite_R11), ("R17", rewrite_R17)):
         t2 = fnr(text1)
         if t2 != text1: rules_used.add(rule)
         text1 = t2
